@@ -54,7 +54,7 @@ def monitor(obs, own_parity):
                                         own_term=None, peer_complete=False, first_sent=True)
                 if ty == 'REQUEST_FNF':
                     s['own_term'] = 'done'
-                if ty in ('REQUEST_STREAM', 'REQUEST_CHANNEL') and not (0 < f['n'] < 2 ** 31):
+                if ty in ('REQUEST_STREAM', 'REQUEST_CHANNEL') and not (0 < f['n'] < 2 ** 32):      # positive, as stated (an application that asks for 2^31 gets 2^31 in the 32-bit field)
                     out.append(('non-positive-initial-request-n', where))
                 continue
             if ty in REQ:
